@@ -19,9 +19,14 @@ fn main() {
         let to: u64 = args[5].parse().unwrap();
         let f: vharness::monitor::CaseFn = match (args[2].as_str(), stream) {
             ("C15", 1) => vharness::checks_misc::c15_soup_case,
+            ("C13", 1) => vharness::checks_conc::c13_case,
             _ => usage(),
         };
         std::process::exit(vharness::monitor::worker_main(seed, stream, from, to, f));
+    }
+    #[cfg(feature = "hooks")]
+    if args[1] == "c18worker" {
+        std::process::exit(vharness::checks_dot::c18_worker(&args[2]));
     }
     if args[1] == "replay" {
         let Some(path) = args.get(2) else { usage() };
@@ -42,14 +47,21 @@ fn main() {
         "C10" => vharness::checks_hist::c10(tier),
         "C11" => vharness::checks_hist::c11(tier),
         "C12" => vharness::checks_hist::c12(tier),
+        "C08" => vharness::checks_class::c08(tier),
+        "C13" => vharness::checks_conc::c13(tier),
+        "C14" => vharness::checks_conc::c14(tier),
         "C15" => vharness::checks_misc::c15(tier),
         "C16" => vharness::checks_misc::c16(tier),
         #[cfg(feature = "hooks")]
         "C02" => vharness::checks_lang::run_lang(vharness::checks_lang::Which::C02, tier),
         #[cfg(feature = "hooks")]
+        "C17" => vharness::checks_big::c17(tier),
+        #[cfg(feature = "hooks")]
+        "C18" => vharness::checks_dot::c18(tier),
+        #[cfg(feature = "hooks")]
         "C03" => vharness::checks_lang::run_lang(vharness::checks_lang::Which::C03, tier),
         #[cfg(not(feature = "hooks"))]
-        "C02" | "C03" | "C18" => {
+        "C02" | "C03" | "C17" | "C18" => {
             println!("INCONCLUSIVE property={} reason=the tree under test does not compile with the hook feature", args[1]);
             2
         }
